@@ -17,7 +17,7 @@ and behave as if the shim were absent.
 API
 ---
     install() / uninstall() / installed()
-    sc = Script(send=..., recv=..., handshake=..., label=None)
+    sc = Script(send=..., recv=..., handshake=..., label=None, nodelay=False)   # nodelay: TCP_NODELAY at registration
         each of send/recv/handshake is a list of actions (consumed one per call of that kind, then "pass" for ever)
         or a dict {call_index: action} (sparse: every other call passes).  Actions are JSON lists:
           ["pass"]
@@ -42,6 +42,8 @@ API
           sc.log    [(op, index, what, requested, result)] last LOGMAX entries (for violation traces)
           sc.exhausted            True when no scripted action remains for any op
           sc.tls                  True once the socket has been wrapped by an SSLContext
+        sc.at(op, index, action)      one more scripted action; sc.stick(op, index, action): the action is applied to EVERY
+                                      call of that kind from `index` on (a dead connection keeps failing)
     register(sock, sc) -> sc      perturb/record this socket object (e.g. `client.cs` right after `client.reopen()`)
     unregister(sock); script_of(sock) -> Script | None
     expect_accept(listener, fn)   every socket returned by listener.accept() is registered with fn(addr) (None: leave
@@ -98,7 +100,9 @@ def make_fault(action):
 
 
 class Script:
-    def __init__(self, send=None, recv=None, handshake=None, label=None):
+    def __init__(self, send=None, recv=None, handshake=None, label=None, nodelay=False):
+        self.nodelay = nodelay    # set TCP_NODELAY on the socket when it is registered (kernel tuning only: keeps a
+                                  # small write from waiting ~40 ms behind a delayed ACK; hio's code path is unchanged)
         self.plan = {"send": self._norm(send), "recv": self._norm(recv), "handshake": self._norm(handshake)}
         self.calls = {"send": 0, "recv": 0, "handshake": 0}
         self.sent = bytearray()
@@ -108,6 +112,7 @@ class Script:
         self.log = []
         self.label = label
         self.tls = False
+        self.sticky = {}          # op -> (first index, action): the action repeats on every call from that index on
         self._pending_write = False
 
     @staticmethod
@@ -122,9 +127,14 @@ class Script:
         self.plan[op][int(index)] = list(action)
         return self
 
+    def stick(self, op, index, action):
+        """From call `index` of `op` on, every call gets `action` (a dead connection keeps failing)."""
+        self.sticky[op] = (int(index), list(action))
+        return self
+
     @property
     def exhausted(self):
-        return all(not p or max(p) < self.calls[op] for op, p in self.plan.items())
+        return not self.sticky and all(not p or max(p) < self.calls[op] for op, p in self.plan.items())
 
     def remaining(self, op):
         return sum(1 for i in self.plan[op] if i >= self.calls[op])
@@ -140,7 +150,11 @@ class Script:
     def _next(self, op):
         idx = self.calls[op]
         self.calls[op] = idx + 1
-        return idx, self.plan[op].get(idx, ("pass",))
+        act = self.plan[op].get(idx)
+        if act is None:
+            st = self.sticky.get(op)
+            act = st[1] if st is not None and idx >= st[0] else ("pass",)
+        return idx, act
 
     # ---- the three perturbed operations ---------------------------------
     def do_send(self, sock, data, rest, real):
@@ -271,6 +285,7 @@ def _sock_accept(self):
             sc = fn(addr)
             if sc is not None:
                 _reg[new] = sc
+                _tune(new, sc)
     return new, addr
 
 
@@ -319,6 +334,14 @@ _PATCHES = [
 ]
 
 
+def _tune(sock, script):
+    if getattr(script, "nodelay", False):
+        try:
+            sock.setsockopt(socket.IPPROTO_TCP, socket.TCP_NODELAY, 1)
+        except OSError:
+            pass
+
+
 def installed():
     return bool(_saved)
 
@@ -353,6 +376,7 @@ def register(sock, script):
     _reg[sock] = script
     if isinstance(sock, ssl.SSLSocket):
         script.tls = True
+    _tune(sock, script)
     return script
 
 
